@@ -1,6 +1,6 @@
 ---------------------------- MODULE MC_Decompose ----------------------------
 EXTENDS Decompose, Json
-ReplayRecord == [spec |-> "Decompose", p |-> P, nbits |-> NBits, bool |-> BoolEnforced, range |-> RangeChecked,
+ReplayRecord == [spec |-> "Decompose", p |-> P, nbits |-> NBits, bool |-> BoolEnforced, unchecked |-> Cardinality(Unchecked), range |-> RangeChecked,
                  x |-> x, bits |-> bits, canonical |-> (bits = Canonical(x)), wraps |-> (Val(bits) >= P)]
 EmitReplay == phase = "done" => PrintT(<<"REPLAY", ToJson(ReplayRecord)>>)
 =============================================================================
